@@ -9,7 +9,7 @@ open Bisquitt Gw
 @[simp] theorem emit_st (g : Gw) (o : Out) : (g.emit o).st = g.st := rfl
 @[simp] theorem setTx_st (g : Gw) (t : Tx) : (g.setTx t).st = g.st := rfl
 @[simp] theorem runFinally_st (g : Gw) (t : Tx) : (g.runFinally t).st = g.st := by
-  unfold runFinally; split <;> rfl
+  unfold runFinally; split <;> (try split) <;> rfl
 @[simp] theorem finishTx_st (g : Gw) (id : Nat) : (g.finishTx id).st = g.st := by
   unfold finishTx; split <;> (try split) <;> simp
 @[simp] theorem fail_st (g : Gw) (c : EndCls) : (g.fail c).st = g.st := by
@@ -18,6 +18,7 @@ open Bisquitt Gw
   unfold snSend; split <;> rfl
 @[simp] theorem mqttSend_st (g : Gw) (p : MqPkt) : (g.mqttSend p).st = g.st := rfl
 @[simp] theorem newTx_st (g : Gw) (k : TxKind) (key : TxKey) (tm : Option Nat) : (g.newTx k key tm).2.st = g.st := rfl
+@[simp] theorem storeByIdB_st (g : Gw) (m : UInt16) (id : Nat) : (g.storeByIdB m id).st = g.st := rfl
 @[simp] theorem storeById_st (g : Gw) (m : UInt16) (id : Nat) : (g.storeById m id).st = g.st := rfl
 @[simp] theorem storeRegistered_st (g : Gw) (id : UInt16) (n : Bytes) : (g.storeRegistered id n).st = g.st := rfl
 @[simp] theorem setConnectTx_st (g : Gw) (id : Nat) : (g.setConnectTx id).st = g.st := rfl
